@@ -2,6 +2,7 @@ import SJ.Properties.C10
 import SJ.Proofs.SourceLevelA
 import SJ.Proofs.SourceLevelD
 import SJ.Proofs.SourceLevelE
+import SJ.Proofs.SourceLevelI
 set_option linter.unusedVariables false
 /-
 C10 — source level. The theorems of Properties/C10.lean composed with the source ties of DESIGN §6.3: each statement
@@ -193,5 +194,25 @@ theorem C10_source_elements_marshalJSON (pj : PJ) (p e : Nat) (ms : LMems) (hok 
     ∃ st, runFun goFuns goElements_MarshalJSON G ⟨elemsEnv0 pj (memElems pj ms) idx, pj.tape⟩ =
         .ret st [.bytes (renderJ (erase (.obj p e ms))), .bool false] ∧ st.tape = pj.tape :=
   SJ.SourceLevelE.C10_source_elements_marshalJSON pj p e ms hok ht hf hb idx G hG
+
+open SJ SJ.Generated SJ.GoSem SJ.GoIter SJ.GoObject SJ.Layout SJ.WalkLayout SJ.ParseDefs SJ.MarshalExact SJ.GoMarshal SJ.SourceLevelI SJ.TrimEdge SJ.GoPJForEach in
+/-- **Parse, then `MarshalJSONBuffer`, source level (E1).**  ASSUMED: the trimmed input is shorter than 2^50 bytes (`SizeOK`)
+    and the parser model (`Parse` or `ParseND`, either string mode) returns the tape `pj`.  CONCLUDED: the tape holds located,
+    tight root values `lvs` (erased: the document the reference decoder reads off the tape), and for every root value
+    `lv ∈ lvs`, every iterator `it` standing on it with its view inside the tape (`RootIter pj lv it`), every destination
+    `dst` and every interpreter fuel `F ≥ 9·n + 31` (`n` = length of the trimmed input), running the regenerated
+    `Iter.MarshalJSONBuffer(dst)` returns `dst ++ renderJ (erase lv)` — the canonical text of that root value, a function
+    of the abstract document only — and a nil error; the tape is untouched.
+    Discharged from the parser facts: `BufOK pj` (`parse_side_conditions`), `FloatsOk lv` (`parse_doc`: the parser writes
+    finite floats only), the tie's fuel `2·len(tape) + lim + 25 ≤ 9·n + 31`.  Nothing about the tape remains as a
+    hypothesis. -/
+theorem C10_source_parse_then_marshal (cfg : Cfg) (nd : Bool) (input : Bytes) (pj : PJ) (hsz : SizeOK (trimSpace input))
+    (h : parseAny cfg nd input = .ok pj) :
+    ∃ lvs : List LVal, OkRoots pj lvs 0 ∧ (∀ v ∈ lvs, Tight v) ∧
+      decodeTapeD pj = some ((lvs.map erase).map DecodeSound.toOVal) ∧
+      ∀ lv ∈ lvs, ∀ it : Iter, RootIter pj lv it → ∀ (dst : Bytes) (F : Nat), 9 * (trimSpace input).size + 31 ≤ F →
+        ∃ st, runFun goFuns goIter_MarshalJSONBuffer F ⟨initEnv pj it dst, pj.tape⟩ =
+          .ret st [.bytes (dst ++ renderJ (erase lv)), .bool false] ∧ st.tape = pj.tape :=
+  SJ.SourceLevelI.parse_then_marshal_source cfg nd input pj hsz h
 
 end SJ.Properties.C10
